@@ -69,3 +69,10 @@ VARIANTS += [
          old="        search_space = {param_name: param_distribution}\n        trans = _SearchSpaceTransform(search_space)\n",
          new="        trans = _SearchSpaceTransform({param_name: param_distribution})\n"),
 ]
+
+TR10 = "optuna/trial/_trial.py"
+VARIANTS += [
+    dict(id="c10-enqueued-none-not-fixed", prop="C10", file=TR10, expect="R10.1",
+         old="        if name not in self._fixed_params:\n            return False\n\n        param_value = self._fixed_params[name]\n",
+         new="        param_value = self._fixed_params.get(name)\n        if param_value is None:\n            return False\n"),
+]
